@@ -173,7 +173,7 @@ func runSessWait(a []string, wait time.Duration, tweak func(sr *scriptedReceiver
 	defer sr.srv.Close()
 	cfgPart := ""
 	if a[1] != "-" {
-		cfgPart = strings.ReplaceAll(a[1], ",", "/") + "/"
+		cfgPart = strings.ReplaceAll(strings.ReplaceAll(a[1], ",", "/"), ";", ",") + "/" // ';' stands for a comma inside a value
 	}
 	mpd := "Manifest.mpd"
 	found := false
